@@ -106,7 +106,7 @@ func (x *Exec) model(fr *Frame, st *State, fn *ssa.Function, args []Val, site ss
 		if site != nil {
 			ok := bvCmp("bvuge", SlLen(s), BVInt(int64(n), 64))
 			x.obligation(fr, site, "idx", st.PC, ok, what+": slice shorter than "+fmt.Sprint(n))
-			x.C.Assume(Implies(st.PC, ok), "continuing past "+what)
+			x.C.Assume(Implies(x.absPC(st.PC),ok), "continuing past "+what)
 		}
 	}
 	switch name {
@@ -197,6 +197,9 @@ func (x *Exec) model(fr *Frame, st *State, fn *ssa.Function, args []Val, site ss
 		ref := x.AllocBacking(st, types.Typ[types.Uint8], &content)
 		res := Ite(Eq(SlBase(s), BVInt(0, 32)), s, MkSlice(ref, BVInt(0, 64), SlLen(s), SlLen(s)))
 		return []Val{bvTV(x.C.Name("cloned", res), fn.Signature.Results().At(0).Type())}, true, nil
+	case "math.Sqrt":
+		x.C.Note("math.Sqrt is an uninterpreted function")
+		return []Val{bvTV(App(SF64, "f64_sqrt", T(0)), types.Typ[types.Float64])}, true, nil
 	case "errors.New", "fmt.Errorf":
 		x.trust(name)
 		id := x.C.Fresh("err", SBV(64))
